@@ -101,7 +101,7 @@ def self_owning(ctx, db):
     rid = ctx.rule('C18.self-owning', 'COUNT+NO-TOUCH', 'self-owning helpers: the resume function of future_with_cb calls the callback exactly once and then deletes the helper exactly once, touching '
                    'nothing afterwards; discard\'s awaiter deletes itself exactly once in its resume function', floor=2)
     T = Tracer(db, depth=0)
-    lams = lambdas_of(db, 'cocls::future_with_cb::future_with_cb')
+    lams = resume_bodies(db, 'cocls::future_with_cb::future_with_cb')
     if not lams:
         raise Broken('resume function of future_with_cb not found')
     seen = set()
@@ -170,11 +170,12 @@ def callback_coro(ctx, db):
 def refused_completes(ctx, db):
     rid = ctx.rule('C18.refused-completes-now', 'PATHS', 'future_conv (both entry forms), call_fn_future_awaiter and discard: when the source future refuses the registration (already resolved) the '
                    'adapter\'s resume() is called at once on exactly that edge, and never on the registered edge', floor=4)
-    T = Tracer(db, depth=0)
+    T = htracer(db)
     targets = []
     for name in ('cocls::future_conv_promise_base::operator<<', 'cocls::future_conv_promise_base::Hlp::operator<<', 'cocls::call_fn_future_awaiter::operator<<', 'cocls::discard'):
         fs = [f for f in db.fns(name, lambdas=True)] + lambdas_of(db, name)
-        fs = [f for f in fs if any(e.k == 'call' and norm(e.get('callee')) == 'cocls::awaiter::resume' for e in f.events())]
+        fs = [f for f in fs if any(e.k == 'call' and norm(e.get('callee')) == 'cocls::awaiter::resume' for e in f.events())] or \
+             [f for f in fs[:6] if any(it.k == 'call' and norm(it.get('callee')) == 'cocls::awaiter::resume' for tr in T.traces(f) for it in tr)]
         if not fs:
             raise Broken('no immediate-completion site found in ' + name)
         targets.append((name, fs))
